@@ -84,6 +84,10 @@ def r1_tmp_provenance(repo=None):
                 src, _ = clib.build_string(fn, c.args[0].path(), before=c)
                 if clib.shape(src) == expected_tmp:
                     r.ok("%s:%s %s %s" % (LIB, c.line, fname, c.callee), "only the tmp path is removed")
+                elif _failed_create_leftover(fn, c):
+                    r.ok("%s:%s %s %s(%s)" % (LIB, c.line, fname, c.callee, "".join(clib.shape(src))),
+                         "removes what a failed H5F_ACC_EXCL create of this same call left behind, and only when no file of that "
+                         "name existed before the create (access() probe taken before it)")
                 elif _own_exclusive_create(fn, c):
                     r.ok("%s:%s %s %s(%s)" % (LIB, c.line, fname, c.callee, "".join(clib.shape(src))),
                          "removes only the file this same call created with H5F_ACC_EXCL (creation succeeded on every "
@@ -137,6 +141,55 @@ def _own_exclusive_create(fn, rm):
         if not tested:
             return False
     return True
+
+
+def _failed_create_leftover(fn, rm):
+    """remove(path) on the failure side of `h = H5Fcreate(path, H5F_ACC_EXCL, ..)` is acceptable when its path condition
+    contains `!V` for a local V assigned once, before the create on every path, from `access(path, F_OK) != -1` (the name
+    did not exist, so what is there now was made by the failed create)."""
+    from .. import cbool
+    g = _cfg.build_c(fn)
+    var = rm.args[0].path()
+    creates = [c for c in fn.calls(("H5Fcreate",)) if c.args[0].path() == var and "H5F_ACC_EXCL" in c.args[1].nsrc]
+    if len(creates) != 1:
+        return False
+    pc = cbool.path_condition(rm, fn)
+    use = clib.status_usage(creates[0])
+    if not use.startswith("assigned:"):
+        return False
+    hv = use.split(":", 1)[1]
+    # the remove is on the failure side of the create: path condition with `h < 0` false is unsatisfiable
+    fail_atoms = [a for a in cbool.atoms(pc) if a.replace(" ", "") in ("0>%s" % hv, "%s<0" % hv)]
+    if not fail_atoms:
+        return False
+    ok_, _w = cbool.equivalent(cbool.conj([pc, ("not", ("atom", fail_atoms[0]))]), ("false",))
+    if not ok_:
+        return False
+    flags = []
+    for path, node, rhs, kind in clib.stores(fn):
+        if kind == "=" and path in {d.name for d in fn.find("VarDecl")}:
+            e = rhs.strip(casts=True)
+            acc = [c for c in e.calls(("access",)) if c.args and c.args[0].path() == var and "F_OK" in c.args[1].nsrc]
+            if acc and e.kind == "BinaryOperator" and e.opcode == "!=" and e.children[1].intval() == -1:
+                flags.append((path, node))
+    for v, node in flags:
+        if len([1 for path, n2, _r, _k in clib.stores(fn) if path == v]) != 1:
+            continue
+        ok2, _w = cbool.equivalent(cbool.conj([pc, ("atom", v)]), ("false",))
+        if not ok2:
+            continue
+        # the probe is taken before the create on every path
+        def node_of(x):
+            best = None
+            for n in g.nodes:
+                if n.ast is not None and n.kind in ("stmt", "cond", "return") and n.ast.begin <= x.begin and x.end <= n.ast.end:
+                    if best is None or (n.ast.end - n.ast.begin) < (best.ast.end - best.ast.begin):
+                        best = n
+            return best
+        P, K = node_of(node), node_of(creates[0])
+        if P is not None and K is not None and K.id not in g.reach([g.entry.id], avoid=[P.id]):
+            return True
+    return False
 
 
 def publish_sites(tu):
